@@ -399,10 +399,57 @@ def random_rule_config(tables, rng, p_rule=0.15, p_disable=0.05, p_enable=0.5, p
     return {"rule": conf}
 
 
-def named_config(name, tables, rng):
+def exceptions_config(tables, rng, text):
+    """the string-list options of the case rules (prefix_exceptions, suffix_exceptions, case_exceptions), drawn from
+    the identifiers of the input itself so that they actually apply: endings / beginnings of its words (the part
+    after the last / before the first underscore, and the last / first 1-3 characters), in the word's own case and
+    in the other case, and whole words in a third case as case exceptions.  Every case rule that has the option
+    gets the same lists; the target case is drawn per job."""
+    import re
+
+    words = sorted({w for w in re.findall(r"[A-Za-z][A-Za-z0-9_]*", text or "") if len(w) >= 3})
+    if not words:
+        return None, []
+    sample = rng.sample(words, min(len(words), 30))
+    suf, pre = set(), set()
+    for w in sample:
+        if "_" in w.strip("_"):
+            suf.add(w[w.rstrip("_").rfind("_") :])
+            pre.add(w[: w.lstrip("_").find("_") + (len(w) - len(w.lstrip("_"))) + 1])
+        k = rng.randrange(1, 4)
+        suf.add(w[-k:])
+        pre.add(w[:k])
+    flip = lambda x: x.upper() if rng.random() < 0.5 else x.lower()  # noqa: E731
+    suf = sorted({x if rng.random() < 0.6 else flip(x) for x in suf if x})
+    pre = sorted({x if rng.random() < 0.6 else flip(x) for x in pre if x})
+    rng.shuffle(suf)
+    rng.shuffle(pre)
+    exc = [w.capitalize() if rng.random() < 0.5 else w.swapcase() for w in rng.sample(sample, min(len(sample), 6))]
+    case = rng.choice(["upper", "lower", "lower", "camelCase", "PascalCase"])
+    conf = {}
+    for r in tables["rules"]:
+        if r["deprecated"] or r["phase"] == 0:
+            continue
+        d = {}
+        if "suffix_exceptions" in r["configuration"]:
+            d["suffix_exceptions"] = suf[:8]
+        if "prefix_exceptions" in r["configuration"]:
+            d["prefix_exceptions"] = pre[:8]
+        if "case_exceptions" in r["configuration"]:
+            d["case_exceptions"] = exc
+        if d and "case" in r["configuration"] and case in option_values(r, "case"):
+            d["case"] = case
+        if d:
+            conf[r["id"]] = d
+    return None, [{"rule": conf}]
+
+
+def named_config(name, tables, rng, text=None):
     """(style, [config dicts]) for a named configuration family"""
     if name == "default":
         return None, []
+    if name == "exceptions":
+        return exceptions_config(tables, rng, text)
     if name == "jcl":
         return "jcl", []
     if name == "indent_only":
